@@ -42,6 +42,9 @@ type Ctx struct {
 	ifaceCache   map[string]*types.Interface
 	wireTaint    map[ssa.Value]bool // values derived from a received heads list (set by T1)
 	lenCacheMemo map[*types.Var]bool
+	j3Values     map[*ssa.Parameter]bool
+	j3Decided    *bool
+	dsKeyDepth   int
 	lockMemo     *lockMemo
 	replMemo     *replImpl
 	allFnsMemo   map[*ssa.Function]bool
